@@ -71,20 +71,20 @@ def main():
     for h, s, body in commits:
         if not s.startswith("fix:"):
             continue
-        hit = next(((prop, fid) for pre, prop, fid in table if s.startswith(pre)), None)
-        if hit is None:
+        hits = [(prop, fid) for pre, prop, fid in table if s.startswith(pre)]   # one commit may repair several findings
+        if not hits:
             unknown.append((h, s))
             continue
-        prop, fid = hit
         what = s[5:] + (": " + body[:300] if body else "")
-        newlog.append(f"fixed: property={prop} {h} {what}")
-        e = by_id.get(fid)
-        if e is None:
-            e = {"id": fid, "property": prop, "status": "fixed", "what": what, "signature": {}}
-            d["findings"].append(e)
-            by_id[fid] = e
-        e["status"] = "fixed"
-        e["commit"] = h
+        newlog.append(f"fixed: property={hits[0][0]} {h} {what}")
+        for prop, fid in hits:
+            e = by_id.get(fid)
+            if e is None:
+                e = {"id": fid, "property": prop, "status": "fixed", "what": what, "signature": {}}
+                d["findings"].append(e)
+                by_id[fid] = e
+            e["status"] = "fixed"
+            e["commit"] = h
     d["log"] = newlog
     p.write_text(json.dumps(d, indent=1))
     print(len(newlog), "fix commits logged;", sum(1 for f in d["findings"] if f["status"] == "open"), "open findings")
